@@ -45,11 +45,18 @@ Definition read_exponent (s : bytes) : option Z :=
       else None
   end.
 
+(* the optional fraction: '.' followed by digits *)
+Definition split_fraction (s : bytes) : bytes * bytes :=
+  match s with
+  | "."%byte :: r => span_digits r
+  | _ => ([], s)
+  end.
+
 (* value of a lower-cased literal *)
 Definition read_literal (s : bytes) : option Q :=
   let '(neg, s1) := split_sign s in
   let '(ip, s2) := span_digits s1 in
-  let '(fp, s3) := match s2 with "."%byte :: r => span_digits r | _ => ([], s2) end in
+  let '(fp, s3) := split_fraction s2 in
   match ip ++ fp with
   | [] => None
   | m =>
@@ -517,8 +524,8 @@ Proof.
   unfold read_literal. fold rest. rewrite Hsplit. cbv beta iota.
   rewrite (span_digits_app ip rest Hi Hrest_head). cbv beta iota.
   (* fraction *)
-  assert (Hfrac : match rest with "."%byte :: r => span_digits r | _ => ([], rest) end = (fp, ex)).
-  { subst rest. destruct pt; cbn [app].
+  assert (Hfrac : split_fraction rest = (fp, ex)).
+  { unfold split_fraction. subst rest. destruct pt; cbn [app].
     - apply span_digits_app; [exact Hf|]. destruct ex; [exact I|apply Hexh].
     - rewrite (Hpt eq_refl). destruct ex as [|c ex']; [reflexivity|].
       destruct Hexh as [_ Hdot]. destruct c; try reflexivity; discriminate Hdot. }
